@@ -367,6 +367,13 @@ theorem mutate_quiet (E : Env) (st : St) (k : HKey) (m : Mutation) (hq : QuietIn
       · exact triv
       · exact fire_quiet E st.H k _ o _ _ _ hq
     · exact triv
+  | announce o n guard =>
+    simp only [mutate]
+    split
+    · split
+      · exact triv
+      · exact fire_quiet E st.H k _ o _ _ _ hq
+    · exact triv
   | listAppend c x =>
     simp only [mutate]; split
     · exact runCont_quiet E st k _ c _ hq
